@@ -12,6 +12,7 @@ index k):
 Infinite iterators (itertools.count) have no exit path.
 """
 from __future__ import annotations
+import os
 
 import ast
 from typing import Any, Dict, List, Optional, Tuple
@@ -71,6 +72,12 @@ class LoopMixin:
                 return ('rseq', self.get_seq(sv))
             if so.kind == 'range' and len(so.payload) == 1:
                 return ('range', smt.int_of(so.payload[0]))
+            if so.kind == 'dictitems':
+                # `for k, v in d.items()`: the key sequence of d (fixed iteration order); the value is read from d in
+                # the state of the iteration (a live view).  The loop must not change the size of d (Python raises
+                # RuntimeError) - obliged where the loop is entered.
+                kt = self.dict_keys_seq(so.payload)
+                return ('ditems', self.get_seq(kt), so.payload, kt, self.dict_arr(so.payload))
         sv = self.to_seq_val(it, node)
         return ('seq', self.get_seq(sv))
 
@@ -95,6 +102,24 @@ class LoopMixin:
                 return z3.If(src[1] > 0, src[1], 0)
             return z3.Length(src[1])
 
+        def ditem(k):
+            key = self.elem(src[1], k)
+            pos = getattr(self, 'keypos_fn', {}).get(src[1].get_id())
+            if pos is not None:
+                # dict keys are pairwise distinct: the position of the k-th key is k
+                self._add_axiom(z3.Implies(z3.And(k >= 0, k < z3.Length(src[1])),
+                                           pos(smt.simp(smt.key_of(key))) == k))
+            if self.kind_of(key) is None and self.implied(
+                    z3.Implies(z3.And(k >= 0, k < z3.Length(src[1])), Val.is_str(key))):
+                self.kind_hint[smt.simp(key).get_id()] = 'str'     # a fact of the path (solver-derived), kept as a hint
+            val = self.dict_get(src[2], key)
+            et = self.container_elem_type.get(smt.simp(src[2]).get_id())
+            if et is not None and not et.startswith(('list[', 'dict[', 'ddict[')):
+                # the dict is (provably, see the guard at the loop head) the one that existed on entry: its field typing
+                # invariant holds for the value under the k-th key
+                self._add_axiom(z3.Implies(z3.And(k >= 0, k < z3.Length(src[1])), self.type_formula(val, et)))
+            return self.mk_tuple([key, val])
+
         def item(k):
             if src[0] == 'seq':
                 return self.elem(src[1], k)
@@ -102,6 +127,8 @@ class LoopMixin:
                 return self.elem(src[1], z3.Length(src[1]) - 1 - k)
             if src[0] == 'range':
                 return smt.simp(Val.int(k))
+            if src[0] == 'ditems':
+                return ditem(k)
             if src[0] == 'count':
                 return smt.simp(Val.int(smt.int_of(src[1]) + k * smt.int_of(src[2])))
             raise Unsupported('loop source')
@@ -110,6 +137,8 @@ class LoopMixin:
         if src is not None and src[0] in ('seq', 'rseq'):
             xs_val = self.alloc(builtin_class('tuple'))
             self.set_seq(xs_val, src[1])
+        if src is not None and src[0] == 'ditems':
+            xs_val = src[3]                 # `xs` of the invariants: the keys, in iteration order
 
         def env_with(k):
             env = dict(self.frame_env(fr))
@@ -168,6 +197,8 @@ class LoopMixin:
             self.assume(k < n)
         for cl, f in inv_formula(k):
             self.assume_checked(f)
+        if is_for and src[0] == 'ditems' and not self.implied(self.dict_arr(src[2]) == src[4]):
+            self.unsupported('the loop may modify the dict it iterates over', s)
         if is_for:
             self.assign(s.target, item(k), fr)
         else:
@@ -179,6 +210,13 @@ class LoopMixin:
             return                      # leaves the loop from this state (no else clause)
         except ContinueSig:
             pass
+        if is_for and src[0] == 'ditems':
+            # Python raises RuntimeError when the iterated dict changes size; the key sequence above is that of the
+            # dict at loop entry - an iteration that may change the iterated dict is outside the modelled subset
+            if os.environ.get('PYVC_DEBUG_DITEMS'):
+                self.oblige('invariant-step', 'DEBUG iterated dict unchanged', self.dict_arr(src[2]) == src[4], ())
+            elif not self.implied(self.dict_arr(src[2]) == src[4]):
+                self.unsupported('the loop may modify the dict it iterates over', s)
         for cl, f in inv_formula(k + 1):
             if cl.name in trusted:
                 continue
